@@ -258,7 +258,7 @@ func (d *Deps) call(x *ssa.Call, fr *frame) {
 		nf := &frame{call: c, fn: f, parent: fr, depth: depth + 1}
 		for _, b := range f.Blocks {
 			for _, in := range b.Instrs {
-				if r, ok := in.(*ssa.Return); ok {
+				if r, ok := AsReturn(in); ok {
 					for _, rv := range r.Results {
 						d.walk(rv, nf)
 					}
